@@ -371,3 +371,15 @@ pub fn run_vm(code: &[u8], cfg: &VmCfg, wd: DynWatchdog) -> Result<VmRun, String
         result,
     })
 }
+
+/// minimum gas per offset, read from the subject's instruction objects
+pub fn gas_table(code: &[u8]) -> Option<Vec<u64>> {
+    use sle::disassembly::InstructionStream;
+    let stream = InstructionStream::try_from(code).ok()?;
+    let thread = stream.new_thread(0).ok()?;
+    Some(
+        (0..code.len())
+            .map(|i| thread.instruction(i as u32).map(|o| o.min_gas_cost() as u64).unwrap_or(0))
+            .collect(),
+    )
+}
